@@ -250,7 +250,8 @@ def canon_dyn_out(line):
 
 def dynamic_check(ctx, invalid, total, rule, modelled=True):
     prop_file = os.path.join(COQ, "theories", "Properties", "%s.v" % ctx.prop)
-    proofs_ok = check_proofs(ctx) if os.path.exists(prop_file) else True
+    extra = tuple(x for x in ("C08dummy", "C08att") if os.path.exists(os.path.join(COQ, "theories", "Properties", x + ".v")))
+    proofs_ok = check_proofs(ctx, extra_props=extra) if os.path.exists(prop_file) else True
     if not os.path.exists(prop_file):
         ctx.notes.append("Properties/%s.v not written yet" % ctx.prop)
     h = build_harness(ctx)
